@@ -88,8 +88,17 @@ def r14_1(ctx, repo):
             ctx.violation(rule, where, construct, '%s column' % name,
                           '`%s` collects column %s; expected %s' % (
                               name, v.col, col))
-        missing = want - v.filters()
-        extra = v.filters() - want
+        # the observable of the current output, through a local or in place
+        outs = [U(l_.target) for l_ in ast.walk(fn)
+                if isinstance(l_, ast.For)]
+        got = set()
+        for f_ in v.filters():
+            for o_ in outs:
+                f_ = f_.replace('self._output_observable_dict[%s]' % o_,
+                                obs_name)
+            got.add(f_)
+        missing = want - got
+        extra = got - want
         if not missing and not extra and v.frame.src == ROOT:
             ctx.ok(rule, where, construct,
                    '%s of an output are the rows {own ID, mapped observable, '
@@ -128,8 +137,12 @@ def r14_1(ctx, repo):
             obs_def = [s for s in ast.walk(l) if isinstance(s, ast.Assign)
                        and U(s.value).startswith(
                            'self._output_observable_dict[')]
-            mapped = obs_def and U(obs_def[0].value) == \
-                'self._output_observable_dict[%s]' % tgt
+            mapped = (obs_def and U(obs_def[0].value) ==
+                      'self._output_observable_dict[%s]' % tgt) or (
+                not obs_def and any(
+                    isinstance(c, ast.Compare) and any(
+                        U(x) == 'self._output_observable_dict[%s]' % tgt
+                        for x in ast.walk(c)) for c in ast.walk(l)))
             where = repo.loc(l, CLS, fn.name)
             if it == 'self._mechanistic_model.outputs()' and mapped:
                 ok_iter = True
